@@ -142,6 +142,15 @@ prop("C14", WORLD,
      text="Bounded symbolic model checking of the host's real Start/Client/Dispense/Ping/Kill composed with the plugin's real Serve in one run over the cross product of protocol, allowed list, transport security, launch method and multiplexing: compatible configurations work end to end, an announced protocol outside the allowed list is refused at start and the plugin terminated (also for legacy handshake lines and for reattach), a multiplexing request to a plugin that does not advertise it fails with the dedicated error, a transport-security mismatch surfaces as an error on first use, unknown plugin names are errors; never a hang or a panic.",
      note="Bound: one healthy plugin per run; the full configuration cross product listed in the evidence. Transport security is the crypto/tls contract model (certificates as identities). " + ENGINE)
 
+# ------------------------------------------------------------------------------------------------ C03
+prop("C03", WORLD,
+     [run("crash-points", "harnessC03", ["started", "start-failed", "client-failed", "crash-before-or-inside-call", "broker-ops-returned", "exit-observed", "killed"],
+          quick={"bound": "host x plugin composed, net/rpc, gRPC and gRPC+mux, both launch methods; the plugin is killed (no deferred code runs) at a symbolic instant tDie in [0, 100 s] and needs a symbolic boot time <= 5 s before its line; host history on the symbolic clock: Start @0, Client @10 s, Dispense @20 s, a 3 s call @30 s, broker accept and dial @40 s, Ping @60 s, exit bookkeeping @70 s, Kill @80 s - the solver places tDie in every gap, inside the call and at every tie"})],
+     WORLD_ASSUME + ["an in-flight net/rpc or gRPC call fails when its connection dies (library contract, part of the model)"], WORLD_STUBS,
+     "crash points inside library internals (a half-written frame); a partial handshake line (covered by C01's EOF/garbage lines); more than one crash per history",
+     text="Bounded symbolic model checking of the host's real Start/Client/Dispense/call/broker Accept+Dial/Ping/Exited/Kill composed with the plugin's real Serve, with the plugin's death a symbolic instant anywhere in the history: every operation returns within its bound on the symbolic clock, none panics, operations that needed a dead plugin return errors (and fail only when the plugin is dead), the client reports the exit and the context handed to gRPC plugin clients is cancelled.",
+     note="Bound: one crash per history; the fixed operation schedule above; three protocol variants x two launch methods. " + ENGINE)
+
 # ------------------------------------------------------------------------------------------------ C12
 TLSC = "crypto/tls contract (trusted, not checked): a server presents Certificates[0]; with ClientAuth = RequireAndVerifyClientCert it accepts a client iff the client presents a certificate contained in ClientCAs (weaker ClientAuth values accept more, as documented); a client accepts a server iff InsecureSkipVerify or the server certificate is in RootCAs; a TLS end and a plaintext end never connect. Certificates are identities, pools are sets of identities."
 prop("C12", ["prims.go", "c12.go"],
